@@ -332,3 +332,43 @@ def slide_name_and_core_properties(s: str, which: int) -> bool:
     if getattr(cp, name) != s or len(cp._element) != 1:
         return False
     return all(getattr(cp, other) == "" for other in CORE_STR if other != name)
+
+
+# ------------------------------------------------------------------ markup characters count as one character each
+MARKUP_UNITS = ["&", "<", ">", '"', "'", "]]>", "&amp;", "a&"]
+MARKUP_COUNTS = [1, 42, 43, 51, 52, 63, 64, 85, 86, 127, 128, 255]
+
+
+@cond(timeout=900, encodes=["pptx.oxml.coreprops:CT_CoreProperties._set_element_text", "pptx.oxml.coreprops:CT_CoreProperties._text_of_element",
+                            "pptx.shapes.base:BaseShape.name", "pptx.slide:_BaseSlide.name"],
+      bound="a string of c copies of one markup unit, c from [1, 42, 43, 51, 52, 63, 64, 85, 86, 127, 128, 255], unit from [&, <, >, \", ', "
+            "]]>, &amp;, a&] (choice variables: exhaustive), at most 255 characters long, given to each of the 11 string core properties, a "
+            "shape name or a slide name (choice variable): accepted and read back unchanged -- what a character costs when escaped is not "
+            "the caller's concern")
+def long_markup_strings_are_data(u: int, c: int, which: int) -> bool:
+    """
+    pre: 0 <= u < len(MARKUP_UNITS) and 0 <= c < len(MARKUP_COUNTS) and 0 <= which <= len(CORE_STR) + 1
+    post: _
+    """
+    s = choose(MARKUP_UNITS, u) * choose(MARKUP_COUNTS, c)
+    if len(s) > 255:
+        return True
+    if which == len(CORE_STR) + 1:
+        from pptx.slide import Slide
+
+        part = _slide_part()
+        sl = Slide(part._element, part)
+        sl.name = s
+        return sl.name == s
+    if which == len(CORE_STR):
+        part = _slide_part()
+        sh = SlideShapes(part._element.cSld.spTree, _Owner(part)).add_shape(MSO_SHAPE.RECTANGLE, 0, 0, 10, 10)
+        sh.name = s
+        return sh.name == s
+    from pptx.oxml.coreprops import CT_CoreProperties
+    from pptx.parts.coreprops import CorePropertiesPart
+
+    name = choose(CORE_STR, which)
+    cp = CorePropertiesPart(None, None, None, CT_CoreProperties.new_coreProperties())
+    setattr(cp, name, s)
+    return getattr(cp, name) == s
